@@ -146,6 +146,18 @@ CHECKS = {
         note="8-bit CSR bus, one or two managers behind real CSRBanks; W1C clear latency window 1..3 cycles is "
              "a parameter of the contract; UART/Timer/GPIO clients are covered only through their EventManager",
         ref="4 (C15)"),
+    "C16": dict(
+        technique="TLA+ contracts (PacketFrame with the header Layout defined at bit level, PacketFifo, PacketRoute) "
+                  "model-checked by TLC on the closed-loop product with the transition graphs of the real Packetizer/"
+                  "Depacketizer/PacketFIFO/Arbiter/Dispatcher netlists; recorded simulations at real widths validated "
+                  "against the same specs",
+        text="all valid/ready schedules for headers of 1-7 bytes (aligned, unaligned, bit offsets, byte swap), data "
+             "width 8/16/32, packets of 1-3 beats back to back, FIFO depth 2-4, 1-4 masters/slaves with selector changes "
+             "mid-packet; ByteLayout, LastPlacement, HeaderFields, OnlyCompletePackets, Atomic, SelLatchedOnFirst, "
+             "BoundedWait are invariants, Liveness/Served temporal properties; a blocked-FIFO canary must fail.",
+        note="exhaustive at reduced parameters, realistic widths sampled in T-mode; no last_be in this tree; three "
+             "defects repaired, two known findings (short header, odd-width swapped field) listed",
+        ref="4 (C16)"),
     "C17": dict(
         technique="implementation function tables recorded exhaustively from the real encoder/decoder netlists and "
                   "model-checked by TLC (Code8b10b: all symbol sequences via a disparity/run-length state machine); "
